@@ -777,6 +777,7 @@ impl Discovery {
                       &self.discovery_db,
                     );
                   }
+                  self.renotify_known_endpoints_secure(participant_guid_prefix);
                 }
                 #[cfg(feature = "security")]
                 DiscoveryCommand::StartKeyExchangeWithRemoteEndpoint {
@@ -1002,7 +1003,7 @@ impl Discovery {
     #[cfg(feature = "security")]
     if self.security_opt.is_some() {
       // With security enabled, matching has to wait for the participant to be
-      // authenticated again; Secure Discovery takes care of that.
+      // authenticated again, see renotify_known_endpoints_secure.
       return;
     }
     let (readers, writers) = {
@@ -1021,6 +1022,50 @@ impl Discovery {
       self.send_discovery_notification(DiscoveryNotificationType::WriterUpdated {
         discovered_writer_data,
       });
+    }
+  }
+
+  // The same with security enabled. This is done only after the participant
+  // has been authenticated (again) and the built-in endpoints have been matched
+  // with it. What we knew about its readers and writers goes through the access
+  // control checks again, and matching them starts the key exchange with them.
+  // At the first discovery of a participant there is nothing to do here.
+  #[cfg(feature = "security")]
+  fn renotify_known_endpoints_secure(&mut self, guid_prefix: GuidPrefix) {
+    let (readers, writers) = {
+      let db = discovery_db_read(&self.discovery_db);
+      (
+        db.readers_of_participant(guid_prefix),
+        db.writers_of_participant(guid_prefix),
+      )
+    };
+    for discovered_reader_data in readers {
+      let sample = Sample::Value(SubscriptionBuiltinTopicDataSecure::from(
+        discovered_reader_data.clone(),
+      ));
+      let permission = match self.security_opt.as_mut() {
+        Some(security) => security.check_secure_subscription_read(&sample, &self.discovery_db),
+        None => return,
+      };
+      if permission == NormalDiscoveryPermission::Allow {
+        self.send_discovery_notification(DiscoveryNotificationType::ReaderUpdated {
+          discovered_reader_data,
+        });
+      }
+    }
+    for discovered_writer_data in writers {
+      let sample = Sample::Value(PublicationBuiltinTopicDataSecure::from(
+        discovered_writer_data.clone(),
+      ));
+      let permission = match self.security_opt.as_mut() {
+        Some(security) => security.check_secure_publication_read(&sample, &self.discovery_db),
+        None => return,
+      };
+      if permission == NormalDiscoveryPermission::Allow {
+        self.send_discovery_notification(DiscoveryNotificationType::WriterUpdated {
+          discovered_writer_data,
+        });
+      }
     }
   }
 
